@@ -198,6 +198,15 @@ func (e *c11Env) auth(via, user, pw string) c11Out {
 	case "sasl":
 		ok, _, err := sasl.NewClient(e.sock).Auth(user, pw, "svc", "")
 		return c11Out{OK: ok && err == nil}
+	case "upgrade-request":
+		// the request a slave sends to its upgrade master: user and current password, no new password
+		body, _ := json.Marshal(map[string]string{"username": user, "oldpassword": pw})
+		resp, err := e.httpc.Post(e.web+"/api/update", "application/json", bytes.NewReader(body))
+		if err != nil {
+			return c11Out{}
+		}
+		resp.Body.Close() //nolint:errcheck
+		return c11Out{OK: resp.StatusCode == 200}
 	}
 	ok, adm, _, err := e.iface.Authenticate(user, pw)
 	return c11Out{OK: ok && err == nil, Admin: adm}
